@@ -33,7 +33,7 @@ REPLAY_DIR = os.path.join(VERIF, "replays")
 CACHE_DIR = os.path.join(VERIF, ".cache")
 SCRATCH_ROOT = os.environ.get("VERIF_SCRATCH", "/var/tmp")
 NCPU = int(os.environ.get("VERIF_JOBS", str(os.cpu_count() or 4)))
-MEM_KB = int(os.environ.get("VERIF_MEM_KB", str(14 * 1024 * 1024)))  # ulimit -v per kani run
+MEM_KB = int(os.environ.get("VERIF_MEM_KB", str(32 * 1024 * 1024)))  # ulimit -v (virtual) per kani run; resident memory is governed by the weighted admission below
 
 # source file (relative to src/) -> harness module file (in /verif/harness)
 MOUNTS = {
